@@ -52,7 +52,7 @@ def main():
         j = int(args[1])
         args = args[2:]
     ids = args or sorted(x for x in os.listdir('/verif/seeded') if os.path.isdir(os.path.join('/verif/seeded', x)))
-    out_path = '/verif/seeded/MATRIX.json'
+    out_path = os.environ.get('MATRIX_OUT', '/verif/seeded/MATRIX.json')
     matrix = json.load(open(out_path)) if os.path.exists(out_path) and args else {}
     with cf.ThreadPoolExecutor(j) as ex:
         for sid, res in ex.map(one, ids):
